@@ -130,6 +130,7 @@ Apply(e) ==
            IF e.node \notin {"C", "S"} THEN Keep
            ELSE St(c, s, pend, [gh EXCEPT !.subs[e.node] = e.subs, !.abs[e.node] = [facade |-> e.facade, query |-> e.query, server |-> e.server],
                                           !.subs0[e.node] = IF e.node \in gh.seen0 THEN @ ELSE e.subs, !.seen0 = @ \cup {e.node}])
+      [] e.ev = "hang" -> Fail("a call into the stack does not return / the stacks produce events without end")
       [] e.ev = "jobdead" -> Fail("job thread died")
       [] e.ev = "spin" -> Fail("job thread busy-spins")
       [] OTHER -> Keep
